@@ -35,10 +35,10 @@ for f in known['fixed']: out.append('* ' + f)
 out.append('\n### 9.2 Known findings (genuine defects recorded, not repaired)\n')
 for f in known['findings']: out.append('* **%s `%s`** — %s' % (f['property'], f['id'], f['description']))
 out.append('\n### 10.1 Seeded changes (written by independent sub-agents that saw only the property text) and the checks that catch them\n')
-out.append('| seed | property | what it needs to manifest | caught by | verdict |\n|---|---|---|---|---|')
+out.append('| seed | property | what it needs to manifest | caught by | verdict | remark |\n|---|---|---|---|---|---|')
 for m in sorted(glob.glob(os.path.join(ROOT, 'seeded', '*', 'meta.json'))):
     d = json.load(open(m))
-    out.append('| %s | %s | %s | %s | %s |' % (os.path.basename(os.path.dirname(m)), d.get('property'), d.get('needs', '').replace('|', '/'), d.get('caught_by', ''), d.get('verdict', '')))
+    out.append('| %s | %s | %s | %s | %s | %s |' % (os.path.basename(os.path.dirname(m)), d.get('property'), d.get('needs', '').replace('|', '/'), d.get('caught_by', ''), d.get('verdict', ''), d.get('remark', '').replace('|', '/')))
 text = '\n'.join(out) + '\n'
 p = os.path.join(ROOT, 'DESIGN.md')
 s = open(p).read()
